@@ -7,7 +7,8 @@ Proved here, for all grids, atoms, weights and integer shifts:
 * the four bilinear weights of the source (generated) sum to one and are non-negative; every update lands inside
   the array; the mass written per atom is its weight (hence the slice mean — the DC coefficient — does not depend on
   sub-pixel positions);
-* translating every atom by whole pixels rolls the delta array (`deltas_pixel_shift`), for both branches;
+* the sum of the whole delta array is the sum of the weights (`deltas_total_mass`);
+* translating every atom by whole pixels rolls the delta array (`deltas_pixel_shift`, sub-pixel branch);
 * every Fourier multiplier commutes with every translation for which the transform satisfies the shift rule
   (`multiplier_equivariant`), and Mathlib's `ZMod.dft` satisfies it (`zmod_shift_rule`); the sum of a multiplier
   output is the DC symbol times the sum of the input (`multiplier_sum`);
@@ -87,6 +88,60 @@ theorem update_in_range (n0 n1 : Nat) (h0 : 0 < n0) (h1 : 0 < n1) (round : Bool)
     rcases hu with h | h | h | h <;> subst h <;> exact ⟨(m0 _).1, (m0 _).2, (m1 _).1, (m1 _).2⟩
   · simp only [atomUpdates, roundedIdx, if_true, List.mem_cons, List.not_mem_nil, or_false] at hu
     subst hu; exact ⟨(m0 _).1, (m0 _).2, (m1 _).1, (m1 _).2⟩
+
+/-! ### total mass of the delta array -/
+
+lemma accumulate_cons (u : Update) (us : List Update) (i j : Int) :
+    accumulate (u :: us) i j = (if u.i = i ∧ u.j = j then u.v else 0) + accumulate us i j := by
+  simp [accumulate]
+
+lemma grid_indicator (n0 n1 : Nat) (u : Update) (h : 0 ≤ u.i ∧ u.i < n0 ∧ 0 ≤ u.j ∧ u.j < n1) :
+    ∑ i ∈ range n0, ∑ j ∈ range n1, (if u.i = (i : Int) ∧ u.j = (j : Int) then u.v else 0) = u.v := by
+  obtain ⟨h1, h2, h3, h4⟩ := h
+  have hi : u.i.toNat ∈ range n0 := by rw [mem_range]; omega
+  have hj : u.j.toNat ∈ range n1 := by rw [mem_range]; omega
+  rw [Finset.sum_eq_single_of_mem u.i.toNat hi]
+  · rw [Finset.sum_eq_single_of_mem u.j.toNat hj]
+    · have e1 : u.i = ((u.i.toNat : Nat) : Int) := by omega
+      have e2 : u.j = ((u.j.toNat : Nat) : Int) := by omega
+      rw [if_pos ⟨e1, e2⟩]
+    · intro j _ hne
+      have : ¬ (u.i = ((u.i.toNat : Nat) : Int) ∧ u.j = (j : Int)) := by
+        intro hh; apply hne; omega
+      rw [if_neg this]
+  · intro i _ hne
+    apply Finset.sum_eq_zero
+    intro j _
+    have : ¬ (u.i = (i : Int) ∧ u.j = (j : Int)) := by
+      intro hh; apply hne; omega
+    rw [if_neg this]
+
+/-- the total written into the array is the sum of all update values -/
+lemma grid_sum_accumulate (n0 n1 : Nat) (us : List Update)
+    (h : ∀ u ∈ us, 0 ≤ u.i ∧ u.i < n0 ∧ 0 ≤ u.j ∧ u.j < n1) :
+    ∑ i ∈ range n0, ∑ j ∈ range n1, accumulate us (i : Int) (j : Int) = (us.map (·.v)).sum := by
+  induction us with
+  | nil => simp [accumulate]
+  | cons u us ih =>
+    simp only [accumulate_cons, Finset.sum_add_distrib, List.map_cons, List.sum_cons]
+    rw [grid_indicator n0 n1 u (h u (by simp)), ih (fun v hv => h v (by simp [hv]))]
+
+/-- `deltas_total_mass`: the sum of the whole delta array is the sum of the atom weights — for every grid, every atom list,
+both branches, wherever the atoms sit inside their pixels.  With `multiplier_sum` this is `slice_mean_subpixel_invariant`:
+the mean of an infinite-projection slice only depends on which atoms are in the slice, not on their lateral positions. -/
+theorem deltas_total_mass (n0 n1 : Nat) (h0 : 0 < n0) (h1 : 0 < n1) (round : Bool) (atoms : List ((Rat × Rat) × Rat)) :
+    ∑ i ∈ range n0, ∑ j ∈ range n1, superposeDeltas n0 n1 round atoms (i : Int) (j : Int) = (atoms.map (·.2)).sum := by
+  unfold superposeDeltas
+  rw [grid_sum_accumulate]
+  · induction atoms with
+    | nil => simp
+    | cons a as ih =>
+      simp only [List.flatMap_cons, List.map_append, List.sum_append, List.map_cons, List.sum_cons]
+      rw [atom_mass, ih]
+  · intro u hu
+    rw [List.mem_flatMap] at hu
+    obtain ⟨a, _, hu⟩ := hu
+    exact update_in_range n0 n1 h0 h1 round a.1 a.2 u hu
 
 /-! ### whole-pixel translations roll the delta array -/
 
